@@ -276,6 +276,15 @@ def check_maps(ctx, tu, info):
                         while f.nodes[n]['cls'] == 'UnaryOperator' and f.nodes[n].get('op') == '!':
                             neg = not neg
                             n = f.strip_all_casts(f.kids(n)[0])
+                        # `slot == nullptr` / `slot != nullptr` (built-in or shared_ptr's operator): the same test spelled out
+                        if f.nodes[n]['cls'] in ('BinaryOperator', 'CXXOperatorCallExpr') and f.nodes[n].get('op') in ('==', '!='):
+                            ops = [f.strip_all_casts(x) for x in (f.nodes[n].get('args') or f.kids(n))]
+                            nulls = [x for x in ops if f.nodes[x]['cls'] in ('CXXNullPtrLiteralExpr', 'GNUNullExpr') or
+                                     any(f.nodes[y]['cls'] == 'CXXNullPtrLiteralExpr' for y in f.descendants(x))]
+                            if len(ops) == 2 and len(nulls) == 1:
+                                if f.nodes[n].get('op') == '==':
+                                    neg = not neg
+                                n = [x for x in ops if x not in nulls][0]
                         tested = None
                         for d in [n] + f.descendants(n):
                             if f.nodes[d]['cls'] == 'MemberExpr' and f.decl(d)['kind'] == 'field' and f.decl(d)['name'] == 'callbackListList':
